@@ -168,9 +168,9 @@ pub fn step(st: &mut St, toks: &[&str]) -> String {
                 _ => "bad-op".into(),
             }
         }
-        // C17: feed `nbytes` bytes (byte i = pat_byte(seed, i mod 2^20)) through the real `update`
+        // C17: feed `nbytes` bytes (byte i = pat_byte(seed, i mod BIG_PERIOD)) through the real `update`
         // in 1 MiB calls
-        // one single `update` call with `nbytes` bytes (byte i = pat_byte(seed, i mod 2^20))
+        // one single `update` call with `nbytes` bytes (byte i = pat_byte(seed, i mod BIG_PERIOD))
         ["skein", "bigupd", slot, nbytes, seed] => {
             let k = slot!(slot);
             match (nbytes.parse::<u64>(), seed.parse::<u64>()) {
